@@ -11,7 +11,15 @@ import (
 // Rng is a splitmix64 generator: every random choice of a harness run derives from VERIF_SEED.
 type Rng struct{ s uint64 }
 
-func NewRng(seed uint64) *Rng { return &Rng{s: seed*0x9E3779B97F4A7C15 + 0x1234567} }
+// NewRng: the seed is scrambled first (two rounds of the output function), otherwise the streams of
+// consecutive seeds 1, 2, 3 … would be one splitmix sequence read at offsets 0, 1, 2 ….
+func NewRng(seed uint64) *Rng {
+	r := &Rng{s: seed ^ 0x5DEECE66D1234567}
+	a := r.Next()
+	r.s = a ^ (seed << 32) ^ 0xD1B54A32D192ED03
+	r.s = r.Next()
+	return r
+}
 
 func (r *Rng) Next() uint64 {
 	r.s += 0x9E3779B97F4A7C15
